@@ -389,6 +389,7 @@ theorem Inv.assign {st2 : St} {env2 : PEnv} (h2 : Inv g inp env0 E0 st2 env2) (h
 structure Hyp (g : PGraph) (inp : Nat → Option (Arr Val)) (E0 : List String) : Prop where
   wf : WFG g
   rank : RankOK g inp
+  shape : ShapeOK g inp
   defined : Defined g inp
   ptnp : "_pt_np" ∈ E0
   /-- the generator is seeded with the names of the inputs -/
@@ -564,7 +565,7 @@ theorem emitNode_spec (hy : Hyp g inp E0) : ∀ (fuel : Nat), SpecAt g inp env0 
         (fun c hc => hskids c (hkids c hc)) hi1 hin2
       obtain ⟨as, hb, hd⟩ := pairs_bound hp2.inv hpairs
         (fun c hc => suppNode_kids hsn c (hkids c hc))
-      have heval := stmt_sound hy.wf hp2.inv.clean hy.rank hpl hsn hb hd
+      have heval := stmt_sound hy.wf hp2.inv.clean hy.rank hy.shape hpl hsn hb hd
       obtain ⟨v, hv⟩ := Option.isSome_iff_exists.1 (stmt_defined hy.defined hpl hsn hd)
       have hl : ∀ n, (n ∈ E0 ∨ (∃ j, (j, n) ∈ st2.memo)) → n ≠ r := by
         intro n hn hnr
@@ -603,7 +604,7 @@ theorem emitNode_spec (hy : Hyp g inp E0) : ∀ (fuel : Nat), SpecAt g inp env0 
         (fun c hc => hskids c (hkids c hc)) hi hin2
       obtain ⟨as, hb, hd⟩ := pairs_bound hp2.inv hpairs
         (fun c hc => suppNode_kids hsn c (hkids c hc))
-      have heval := stmt_sound hy.wf hp2.inv.clean hy.rank hpl hsn hb hd
+      have heval := stmt_sound hy.wf hp2.inv.clean hy.rank hy.shape hpl hsn hb hd
       obtain ⟨v, hv⟩ := Option.isSome_iff_exists.1 (stmt_defined hy.defined hpl hsn hd)
       have hl : ∀ n, (n ∈ E0 ∨ (∃ j, (j, n) ∈ st2.memo)) → n ≠ r := by
         intro n hn hnr
